@@ -17,8 +17,8 @@ func init() {
 	register(&Rule{ID: "R17.json-fragments", Props: []string{"C17", "C05", "C10"}, Floor: 100,
 		Text: "JSON fragment typing over all hand-assembled JSON of internal/server (string concatenations, appends to byte buffers, Sprintf formats with JSON-looking literals): the literal text is scanned with a JSON lexer; a hole between double quotes must be produced by a quote-free text producer, a hole after ':' by a JSON value producer (jsonString, appendJSONString, JSON(), AppendJSON, strconv integer/bool/'f' float formatters, jsonTimeFormat, ConvertToJSON, nested checked builders), any other hole by a reviewed value, fragment, list or text producer; a chain must not end inside a string",
 		Run:  ruleJSONFragments})
-	register(&Rule{ID: "R17.both-modes", Props: []string{"C17"}, Floor: 30,
-		Text: "every handler that switches on msg.OutputType has both a JSON and a RESP arm (or a default), so that no mode falls through to an empty reply by omission",
+	register(&Rule{ID: "R17.both-modes", Props: []string{"C17"}, Floor: 20,
+		Text: "every function that switches on msg.OutputType has a JSON and a RESP arm (or a default) among its OutputType switches taken together, so that no mode falls through to an empty reply by omission (an arm left out of one of several switches is the same as an empty arm there)",
 		Run:  ruleBothModes})
 }
 
@@ -63,36 +63,58 @@ func ruleBothModes(c *Ctx) {
 	ot := c.Field("internal/server", "Message", "OutputType")
 	for _, fn := range c.AllFuncs("internal/server") {
 		info := fn.Info()
+		// the arms of all the OutputType switches of the function together: a mode that has an arm in one of
+		// them is handled by the function (an arm left out of one switch is the same as an empty arm there)
 		n := 0
+		hasJSON, hasRESP := false, false
+		var first *ast.SwitchStmt
+		var lacking []*ast.SwitchStmt
 		ast.Inspect(fn.Decl.Body, func(x ast.Node) bool {
 			sw, ok := x.(*ast.SwitchStmt)
 			if !ok || sw.Tag == nil || selField(info, sw.Tag) != ot {
 				return true
 			}
 			n++
-			hasJSON, hasRESP, hasDefault := false, false, false
+			if first == nil {
+				first = sw
+			}
+			j, r, d := false, false, false
 			for _, cc := range sw.Body.List {
 				cl := cc.(*ast.CaseClause)
 				if cl.List == nil {
-					hasDefault = true
+					d = true
 				}
 				for _, e := range cl.List {
 					if id, ok := ast.Unparen(e).(*ast.Ident); ok {
 						if o, ok := info.ObjectOf(id).(*types.Const); ok {
 							switch o.Name() {
 							case "JSON":
-								hasJSON = true
+								j = true
 							case "RESP":
-								hasRESP = true
+								r = true
 							}
 						}
 					}
 				}
 			}
-			key := fmt.Sprintf("%s#%d", funcName(fn.Obj), n)
-			c.check((hasJSON && hasRESP) || hasDefault, key, sw.Pos(), "JSON and RESP arms present", fmt.Sprintf("the OutputType switch has JSON=%v RESP=%v default=%v: one output mode silently gets an empty reply", hasJSON, hasRESP, hasDefault))
+			if d {
+				j, r = true, true
+			}
+			if !(j && r) {
+				lacking = append(lacking, sw)
+			}
+			hasJSON = hasJSON || j
+			hasRESP = hasRESP || r
 			return true
 		})
+		if n == 0 {
+			continue
+		}
+		pos := first.Pos()
+		if len(lacking) > 0 {
+			pos = lacking[0].Pos()
+		}
+		c.check(hasJSON && hasRESP, funcName(fn.Obj), pos, "JSON and RESP arms present among the function's OutputType switches", fmt.Sprintf("the OutputType switches of the function have JSON=%v RESP=%v (no default): one output mode silently gets an empty reply", hasJSON, hasRESP))
 	}
 }
 
